@@ -301,7 +301,10 @@ def main():
     tier = os.environ.get("VERIF_TIER") or sys.argv[2]
     if tier not in ("quick", "thorough"):
         tier = "quick"
-    seed0 = int(os.environ.get("VERIF_SEED", "1") or "1")
+    try:
+        seed0 = abs(int(os.environ.get("VERIF_SEED", "1") or "1")) % 1000000000
+    except ValueError:
+        seed0 = int(hashlib.sha256(os.environ["VERIF_SEED"].encode()).hexdigest()[:7], 16)
     spec = PROPS[pid]
     t_start = time.time()
     binary = build("asan")
